@@ -660,6 +660,8 @@ def _capture_logging(sim):
       if rec.exc_info and rec.exc_info[0] is not None:
         et = rec.exc_info[0].__name__
       sim.log_records.append((rec.levelno, rec.name, et))
+      if et is not None:
+        sim.stats["log_exception"] += 1
       if et is not None or rec.levelno >= logging.ERROR:
         try:
           m = rec.getMessage()
